@@ -353,7 +353,7 @@ def replay(rep, ob_name, qs):
 
 def bounded(rep, pid, known):
     _bounded_hds(rep, pid, known)
-    if pid in ("C06", "C10", "C08"):
+    if pid in ("C06", "C10", "C08", "C07"):  # C07: the directories have snapshot chains (1..3 layers per storage), opened repeatedly
         _bounded_hdd(rep, pid, known)
 
 
